@@ -29,6 +29,12 @@ func c13compare(c *wk.Ctx, idx int, d *ts.Def, s *ts.Schema, gt reflect.Type, st
 		c.Count("hand_codec."+d.Name, 1)
 	}
 	audit.Compare(d, s, gt, audit.Registry(bridge.Objects), HandCodec[d.Name], func(kind, detail string) {
+		if kind == "field-name" && s == mtSchema {
+			// the hand-written service objects abbreviate (Fingerprints, Retry, Obj, NewSalt): names there are the
+			// author's; the generated API layer is the translation whose names the schema dictates
+			c.Count("informational.service_field_names_abbreviated", 1)
+			return
+		}
 		if strict {
 			c.Viol("C13", idx, kind+"/"+d.Name, d.Name+": "+detail, d.Line)
 		} else {
